@@ -517,7 +517,7 @@ func (s *ServerQUIC) readQUICMsg(
 	// #nosec G115 -- n has already been checked against DNSHeaderSize.
 	wantLen := uint16(n - 2)
 	if packetLen == wantLen {
-		err = m.Unpack(buf[2:])
+		err = m.Unpack(buf[2:n])
 	} else {
 		err = fmt.Errorf("bad buffer size %d, want %d", packetLen, wantLen)
 	}
